@@ -63,6 +63,9 @@ PROP = {'drive': ['T2'], 'harness_files': ['area_t2.go'], 'modules': ['SfntV.Pro
              'about a quarter of them read back wrong (finding C04-bigstep, #20).',
              '#19 (default/nominal width in the Private DICT; selectWidths repaired in 7574c51) is outside '
              'encodeCharString and belongs to C13; dw/nw are inputs here.'],
+ 'font_refusal_note': 'D stream t2.fontbad (area t2font): fonts of 1-6 glyphs (simple and CID-keyed) with an odd-length '
+                       'HStem/VStem list in the first / a middle / the last glyph: Font.Write must refuse; without a bad glyph the '
+                       'output must read back (cff.Read) with the same glyphs (refused-or-faithful).',
  'font_level_note': 'D stream t2.fontw (area t2font): fonts with chosen width multisets (nominal == default != 0, '
                     'nominal == 0, default == 0, all equal, single glyph, integral and fractional, explicit widths at '
                     '+-107/+-108/+-1131/+-1132 from the most frequent width) are written by the real Font.Write; the '
